@@ -302,27 +302,37 @@ Section Step.
     cbn [fst]. now apply sdel_Inv.
   Qed.
 
+  Lemma on_adv_Inv t h : Inv t -> Inv (fst (fst (on_adv ipver t h))).
+  Proof.
+    intros Hi. unfold on_adv. destruct (is_discover h); [exact Hi|].
+    destruct (hget h k_nts) as [v|]; [|exact Hi].
+    set (h' := with_source h src_advertisement).
+    destruct (match v with HStr x => str_eqb x nts_alive | _ => false end).
+    { pose proof (see_advertisement_Inv t h' false Hi) as H.
+      destruct (see_advertisement ipver t h' false) as [t' [[u ty]|]]; exact H. }
+    destruct (match v with HStr x => str_eqb x nts_byebye | _ => false end).
+    { pose proof (unsee_Inv t h' Hi) as H.
+      destruct (unsee_advertisement t h') as [t' [[[u ty] d]|]]; exact H. }
+    destruct (match v with HStr x => str_eqb x nts_update | _ => false end); [|exact Hi].
+    pose proof (see_advertisement_Inv t h' true Hi) as H.
+    destruct (see_advertisement ipver t h' true) as [t' [[u ty]|]]; exact H.
+  Qed.
+
+  Lemma on_srch_Inv th t h : Inv t -> Inv (fst (fst (on_srch ipver th t h))).
+  Proof.
+    intros Hi. unfold on_srch. destruct (is_discover h); [exact Hi|].
+    destruct (htruthy h k_nts); [exact Hi|].
+    set (h' := with_source h src_search).
+    destruct (negb _); [exact Hi|].
+    pose proof (see_search_Inv t h' Hi) as H.
+    destruct (see_search ipver t h') as [t' [[[u ty] s]|]]; exact H.
+  Qed.
+
   Theorem step_Inv th t o : Inv t -> Inv (fst (fst (step ipver th t o))).
   Proof.
-    intros Hi. destruct o as [items|items|now]; cbn [step].
-    - unfold on_adv. destruct (is_discover (mk_hdrs items)); [exact Hi|].
-      destruct (hget (mk_hdrs items) k_nts) as [v|]; [|exact Hi].
-      set (h := with_source (mk_hdrs items) src_advertisement).
-      destruct (match v with HStr x => str_eqb x nts_alive | _ => false end).
-      { pose proof (see_advertisement_Inv t h false Hi) as H.
-        destruct (see_advertisement ipver t h false) as [t' [[u ty]|]]; exact H. }
-      destruct (match v with HStr x => str_eqb x nts_byebye | _ => false end).
-      { pose proof (unsee_Inv t h Hi) as H.
-        destruct (unsee_advertisement t h) as [t' [[[u ty] d]|]]; exact H. }
-      destruct (match v with HStr x => str_eqb x nts_update | _ => false end); [|exact Hi].
-      pose proof (see_advertisement_Inv t h true Hi) as H.
-      destruct (see_advertisement ipver t h true) as [t' [[u ty]|]]; exact H.
-    - unfold on_srch. destruct (is_discover (mk_hdrs items)); [exact Hi|].
-      destruct (htruthy (mk_hdrs items) k_nts); [exact Hi|].
-      set (h := with_source (mk_hdrs items) src_search).
-      destruct (negb _); [exact Hi|].
-      pose proof (see_search_Inv t h Hi) as H.
-      destruct (see_search ipver t h) as [t' [[[u ty] s]|]]; exact H.
+    intros Hi. destruct o as [items|items|nw]; cbn [step].
+    - apply on_adv_Inv, Hi.
+    - apply on_srch_Inv, Hi.
     - cbn [fst]. apply purge_devices_spec. exact Hi.
   Qed.
 End Step.
